@@ -180,7 +180,21 @@ def h_tee(L: int, o0: int, o1: int, o2: int, o3: int, o4: int, o5: int, o6: int,
     W = World("a")
     D = Driver(W, sync_only=True)
     s = Stream(L)
-    t = A.tee(s.gen(), 2)
+    if P("src", "agen") == "bare":
+
+        class Bare:  # async iterator without aclose
+            def __init__(self, gen):
+                self.gen = gen
+
+            def __aiter__(self):
+                return self
+
+            def __anext__(self):
+                return self.gen.__anext__()
+
+        t = A.tee(Bare(s.gen()), 2)
+    else:
+        t = A.tee(s.gen(), 2)
     kids = [t[0], t[1]]
     pos = [0, 0]
     live = [True, True]
@@ -227,6 +241,8 @@ def jobs(tier):
         J.append({"module": "c20", "fn": "h_retain", "part": {"tool": name, "L": (12 if q else 24)}, "timeout": T})
     for closeat in range(0, 8):
         J.append({"module": "c20", "fn": "h_tee", "part": {"L": 8, "closeat": closeat}, "timeout": T})
+    for closeat in (1, 3, 8):
+        J.append({"module": "c20", "fn": "h_tee", "part": {"L": 8, "closeat": closeat, "src": "bare"}, "timeout": T})
     return J
 
 
